@@ -608,6 +608,53 @@ def t_array_decl_in_loop(te):
     return entry("stmt/array-decl-in-loop", prog([func("f", "llong", [("n", "int")], body)]), (te,))
 
 
+def t_compound_fx_index(kind, op, te):
+    # compound assignment whose lvalue has a side effect: the lvalue is evaluated ONCE (6.5.16.2p3)
+    lv = IX(V("tab"), ID(kind, V("i")))
+    body = [D("int", "i", B("add", B("band", V("n"), L(1)), L(1))), E(A(lv, V("v"), op)), RET(V("i"))]
+    return entry("stmt/compound-fx-index", prog([func("f", "int", [("n", "int"), ("v", "int")], body)],
+                                                globals_=[("tab", ["arr", te, 4], None)]), (te,))
+
+
+def t_compound_fx_local(kind, op, te):
+    lv = IX(V("a"), ID(kind, V("i")))
+    body = [DL(["arr", te, 4], "a", [L(1), L(2), L(3), L(4)]), D("int", "i", B("add", B("band", V("n"), L(1)), L(1))),
+            D("llong", "r", A(lv, V("v"), op)),
+            RET(B("bxor", B("bxor", B("add", B("mul", C("llong", IX(V("a"), L(0))), L(1000)), IX(V("a"), L(1))),
+                            B("add", B("mul", C("llong", IX(V("a"), L(2))), L(100000)), IX(V("a"), L(3)))),
+                  B("add", B("mul", V("r"), L(7)), V("i"))))]
+    return entry("stmt/compound-fx-local", prog([func("f", "llong", [("n", "int"), ("v", "int")], body)]), (te,))
+
+
+def t_compound_fx_ptr(kind, op, te):
+    # *q++ op= v   /   *--q op= v   on the caller's buffer
+    lv = ["deref", ID(kind, V("q"))]
+    body = [D(["ptr", te], "q", B("add", V("p"), L(1))), E(A(lv, V("v"), op)), RET(B("sub", V("q"), V("p")))]
+    return entry("stmt/compound-fx-ptr", prog([func("f", "llong", [("p", ["ptr", te]), ("v", "int")], body)]), (te,))
+
+
+def t_compound_fx_call(op, te, external):
+    # index computed by a call: the call happens once
+    if external:
+        idx = B("band", CALL("ext1", V("n")), L(3))
+        fs, ex, gl = [], [("ext1", "int", ["int"])], [("tab", ["arr", te, 4], None)]
+    else:
+        idx = CALL("idx")
+        fs = [func("idx", "int", [], [RET(B("band", ID("postinc", V("cnt")), L(3)))])]
+        ex, gl = [], [("tab", ["arr", te, 4], None), ("cnt", "uint", None)]
+    body = [E(A(IX(V("tab"), idx), V("n"), op)), RET(L(0) if external else C("llong", V("cnt")))]
+    return entry("stmt/compound-fx-" + ("extern" if external else "call"),
+                 prog(fs + [func("f", "llong", [("n", "int")], body)], globals_=gl, externs=ex), (te,))
+
+
+def t_incdec_fx(kind, kind2, te):
+    # ++ / -- applied to an lvalue with a side effect: tab[i++]++
+    body = [D("int", "i", B("band", V("n"), L(1))), D("llong", "r", ID(kind2, IX(V("tab"), ID(kind, V("i"))))),
+            RET(B("add", B("mul", V("r"), L(4)), V("i")))]
+    return entry("stmt/incdec-fx", prog([func("f", "llong", [("n", "int")], body)],
+                                        globals_=[("tab", ["arr", te, 4], None)]), (te,))
+
+
 def t_big_literal(v, suffix):
     body = [RET(B("lt", U("neg", L(v, suffix)), L(0)))]
     return entry("stmt/literal", prog([func("f", "int", [], body)]), (f"{v}{suffix}",))
@@ -704,6 +751,20 @@ def stmt_family(tier, rnd, march="x86_64"):
                 out.append(t_compound(op, tx, tb))
             for tx, tb in cpairs:
                 out.append(t_compound_value(op, tx, tb))
+    # compound assignment / ++ -- on an lvalue that has a side effect itself (evaluated once)
+    fx = [("postinc", "add", "int"), ("preinc", "sub", "char"), ("postdec", "bxor", "uchar"), ("predec", "mul", "short"),
+          ("postinc", "shr", "uint"), ("preinc", "bor", "llong"), ("postdec", "add", "ushort"), ("predec", "band", "schar")]
+    for kind, op, te in (fx[:4] if q else fx):
+        out.append(t_compound_fx_index(kind, op, te))
+        out.append(t_compound_fx_ptr(kind, op, te if te not in ("long", "ulong", "llong", "ullong") else "int"))   # 16-byte buffer
+    for kind, op, te in (fx[1:3] if q else fx):
+        out.append(t_compound_fx_local(kind, op, te))
+    for op, te in ([("mul", "int"), ("sub", "uchar")] if q else [("mul", "int"), ("sub", "uchar"), ("bxor", "short"), ("add", "llong"), ("shl", "uint")]):
+        out.append(t_compound_fx_call(op, te, False))
+        out.append(t_compound_fx_call(op, te, True))
+    for kind, kind2, te in ([("postinc", "postinc", "int"), ("predec", "predec", "uchar")] if q else
+                            [("postinc", "postinc", "int"), ("predec", "predec", "uchar"), ("postinc", "predec", "short"), ("preinc", "postdec", "llong")]):
+        out.append(t_incdec_fx(kind, kind2, te))
     # ++ / --
     for kind in ("preinc", "predec", "postinc", "postdec"):
         for tx in (["schar", "uchar", "ushort", "int", "ulong"] if q else ints):
